@@ -133,6 +133,23 @@ fn main() {
             let got = match j { Ok(()) => Err("the thread did not panic".to_string()), Err(p) => if a == 10 && p.is::<UserPanic>() { Ok("user".to_string()) } else { Ok(format!("mock:{}", p.downcast_ref::<String>().cloned().unwrap_or_default().lines().next().unwrap_or(""))) } };
             after(keep, got)
         }
+        // an original configured with no_verify_in_drop() after a mock-induced error has been recorded (swallowed on this thread / raised
+        // by a clone on a joined worker / the very panic that is unwinding): dropping it while the thread unwinds must stay silent
+        "noverify-recorded" => {
+            let u = Unimock::new(unmet()).no_verify_in_drop();
+            match topo.as_str() {
+                "orig" => { let _ = catch_unwind(AssertUnwindSafe(|| { u.other(9); })); }
+                "clone-outside" => { let c = u.clone(); let _ = std::thread::spawn(move || { c.other(9); }).join(); }
+                _ => {}
+            }
+            let own = topo == "self";
+            let r = catch_unwind(AssertUnwindSafe(move || { let h = u; if own { h.other(9); } user_panic() }));
+            match r {
+                Ok(()) => Err("no panic reached the frame".to_string()),
+                Err(p) if p.is::<UserPanic>() => if own { Err("the mock-induced panic did not reach the frame".to_string()) } else { Ok("user".to_string()) },
+                Err(p) => { let m = p.downcast_ref::<String>().cloned().unwrap_or_default(); if own && m.contains("Cp::other") { Ok("mock-induced panic unwound the owner once".to_string()) } else { Err(format!("the frame was unwound by `{}`", m.lines().next().unwrap_or(""))) } }
+            }
+        }
         _ => Err(format!("unknown case {case}")),
     };
     match verdict {
